@@ -42,7 +42,7 @@ def LevelStatement (S : Schema) (ft : List (Name × Name)) (env : List Decl)
     genAt S n nn (typenameFieldOf subs) st
       (fun td' s => genSels S ft td' (typenameFieldOf subs).isSome subs [] [] s) = .ok (ty, st') →
     setOK S ft td subs = true → EnumInv st →
-    (∀ d ∈ st.decls, d ∈ st'.decls) ∧ EnumInv st' ∧
+    (∀ d ∈ st.decls, d ∈ st'.decls) ∧ EnumInv st' ∧ (∀ tds, NamesHyp S tds → NameInv S tds st → NameInv S tds st') ∧
     ((∀ d ∈ st'.decls, d ∈ env) →
       (∃ tyB, ty = ptrUnless nn tyB ∧ LevelGood S env frag td subs tyB) ∧
       (FragNames ft (env.map Decl.name) → enumConstsOK S = true →
@@ -172,7 +172,7 @@ theorem member_step (henv : EnvOK env) (td : TypeDef) (hasTn : Bool) (s : Sel)
     (hinv : EnumInv st) :
     ∃ e, f1 = fields ++ [e] ∧ e.key = memberKey td s ∧
       (∀ c f, Conds.has c1 c f ↔ Conds.has conds c f ∨ FragPair ft td s c f) ∧
-      (∀ d ∈ st.decls, d ∈ st1.decls) ∧ EnumInv st1 ∧
+      (∀ d ∈ st.decls, d ∈ st1.decls) ∧ EnumInv st1 ∧ (∀ tds, NamesHyp S tds → NameInv S tds st → NameInv S tds st1) ∧
       (isFieldSel s = false → td.isObject = false → hasTn = true) ∧
       ((∀ d ∈ st1.decls, d ∈ env) → MemberGood S env frag td s e ∧
         (FragNames ft (env.map Decl.name) → enumConstsOK S = true →
@@ -189,7 +189,7 @@ theorem member_step (henv : EnvOK env) (td : TypeDef) (hasTn : Bool) (s : Sel)
       injection h2 with h2 h3
       subst h1 h2 h3
       simp only [selOK, Bool.and_eq_true] at hsel
-      refine ⟨⟨f, .ptr (.named (f ++ n_Fragment)), true⟩, ?_, rfl, ?_, fun d hd => hd, hinv, ?_,
+      refine ⟨⟨f, .ptr (.named (f ++ n_Fragment)), true⟩, ?_, rfl, ?_, fun d hd => hd, hinv, fun _ _ h => h, ?_,
         fun _ => ⟨⟨rfl, rfl, rfl⟩, fun hfn _ => ⟨isExported_fieldName hsel.1.1, ?_, fun h => h⟩⟩⟩
       · exact Fields.set_of_fresh (fun x hx => by simpa [memberKey] using hfresh x hx)
       rotate_left 2
@@ -225,9 +225,9 @@ theorem member_step (henv : EnvOK env) (td : TypeDef) (hasTn : Bool) (s : Sel)
           subst h1 h2 h3
           simp only [selOK, Bool.and_eq_true, hlc] at hsel
           obtain ⟨⟨hletter, _⟩, ⟨hcomp, hmok⟩, hnd⟩ := hsel
-          obtain ⟨hmono, hinv', hsem⟩ := hIH _ ctd false st gen st2 hlc hcomp hgen
+          obtain ⟨hmono, hinv', hnm, hsem⟩ := hIH _ ctd false st gen st2 hlc hcomp hgen
             (by simp [setOK, hmok, hnd]) hinv
-          refine ⟨⟨cond.getD td.name, gen, true⟩, ?_, rfl, ?_, hmono, hinv', ?_, ?_⟩
+          refine ⟨⟨cond.getD td.name, gen, true⟩, ?_, rfl, ?_, hmono, hinv', hnm, ?_, ?_⟩
           · exact Fields.set_of_fresh (fun x hx => by simpa [memberKey] using hfresh x hx)
           · intro c f'
             rw [Conds.has_add]
@@ -254,7 +254,7 @@ theorem member_step (henv : EnvOK env) (td : TypeDef) (hasTn : Bool) (s : Sel)
       injection h2 with h2 h3
       subst h1 h2 h3
       simp only [selOK, Bool.and_eq_true] at hsel
-      refine ⟨⟨alias.getD n_typename, .string, false⟩, ?_, rfl, ?_, fun d hd => hd, hinv, ?_,
+      refine ⟨⟨alias.getD n_typename, .string, false⟩, ?_, rfl, ?_, fun d hd => hd, hinv, fun _ _ h => h, ?_,
         fun _ => ⟨⟨rfl, rfl, by simp⟩, fun _ _ => ⟨isExported_fieldName_of_keyOK hsel.1, by simp [tyOK], fun h => h⟩⟩⟩
       · exact Fields.set_of_fresh (fun x hx => by simpa [memberKey] using hfresh x hx)
       · intro c f'; simp [FragPair]
@@ -292,7 +292,7 @@ theorem member_step (henv : EnvOK env) (td : TypeDef) (hasTn : Bool) (s : Sel)
         clear hstep
         simp only [hft] at hsub
         -- the value part
-        have hvalue : (∀ d ∈ st.decls, d ∈ st1.decls) ∧ EnumInv st1 ∧
+        have hvalue : (∀ d ∈ st.decls, d ∈ st1.decls) ∧ EnumInv st1 ∧ (∀ tds, NamesHyp S tds → NameInv S tds st → NameInv S tds st1) ∧
             ((∀ d ∈ st1.decls, d ∈ env) → (∀ v L, v.keysOK = true →
               wrapLeaves (specBase S frag (shape ftype false).2.1 subs) (shape ftype false).2.2 (shape ftype false).1 v = some L →
               Holds env (wrapSlices (shape ftype false).1 gen) v L) ∧
@@ -305,9 +305,9 @@ theorem member_step (henv : EnvOK env) (td : TypeDef) (hasTn : Bool) (s : Sel)
             simp only [hlb] at hsub
             by_cases hcomp : isComposite btd = true
             · simp only [hcomp, if_true, Bool.and_eq_true] at hsub
-              obtain ⟨hmono, hinv', hsem⟩ := hIH _ btd _ st gen st1 hlb hcomp hgen
+              obtain ⟨hmono, hinv', hnm, hsem⟩ := hIH _ btd _ st gen st1 hlb hcomp hgen
                 (by simp [setOK, hsub.1, hsub.2]) hinv
-              refine ⟨hmono, hinv', ?_⟩
+              refine ⟨hmono, hinv', hnm, ?_⟩
               intro henv1
               obtain ⟨⟨tyB, hty, hgood⟩, hstatic⟩ := hsem henv1
               refine ⟨?_, fun hfn hec => by rw [tyOK_wrapSlices]; exact hstatic hfn hec⟩
@@ -341,7 +341,7 @@ theorem member_step (henv : EnvOK env) (td : TypeDef) (hasTn : Bool) (s : Sel)
                 injection hgen with hgen
                 injection hgen with h1 h2
                 subst h1 h2
-                refine ⟨fun d hd => hd, hinv, ?_⟩
+                refine ⟨fun d hd => hd, hinv, fun _ _ h => h, ?_⟩
                 intro _
                 refine ⟨?_, fun _ _ => ⟨by rw [tyOK_wrapSlices, tyOK_ptrUnless]; exact tyOK_scalarTy _ hsub, fun h => h⟩⟩
                 intro v L hk hw
@@ -352,21 +352,23 @@ theorem member_step (henv : EnvOK env) (td : TypeDef) (hasTn : Bool) (s : Sel)
                 injection hgen with hgen
                 injection hgen with h1 h2
                 -- the enum's declaration is in the output
-                have hdecl : (∃ cs, Decl.enum nm cs ∈ st1.decls) ∧ (∀ d ∈ st.decls, d ∈ st1.decls) ∧ EnumInv st1 := by
+                have hdecl : (∃ cs, Decl.enum nm cs ∈ st1.decls) ∧ (∀ d ∈ st.decls, d ∈ st1.decls) ∧ EnumInv st1 ∧
+                    (∀ tds, NamesHyp S tds → NameInv S tds st → NameInv S tds st1) := by
                   rw [← h2]
                   by_cases hc : st.enums.contains nm = true
                   · simp only [hc, if_true]
-                    exact ⟨hinv nm (by simpa using hc), fun d hd => hd, hinv⟩
+                    exact ⟨hinv nm (by simpa using hc), fun d hd => hd, hinv, fun _ _ h => h⟩
                   · simp only [hc, Bool.false_eq_true, if_false]
-                    refine ⟨⟨vs.map fun v => (constName nm v, v), by simp⟩, fun d hd => by simp [hd], ?_⟩
+                    refine ⟨⟨vs.map fun v => (constName nm v, v), by simp⟩, fun d hd => by simp [hd], ?_,
+                      fun tds hN h => nameInv_add_enum hN h (Schema.lookup_mem hlb) (by simpa using hc) _⟩
                     intro m hm
                     simp only [List.mem_cons] at hm
                     rcases hm with rfl | hm
                     · exact ⟨vs.map fun v => (constName m v, v), by simp⟩
                     · obtain ⟨cs, hcs⟩ := hinv m hm
                       exact ⟨cs, by simp [hcs]⟩
-                obtain ⟨⟨cs, hcs⟩, hmono, hinv'⟩ := hdecl
-                refine ⟨hmono, hinv', ?_⟩
+                obtain ⟨⟨cs, hcs⟩, hmono, hinv', hnm⟩ := hdecl
+                refine ⟨hmono, hinv', hnm, ?_⟩
                 intro henv1
                 have hlook : lookupDecl env nm = some (.enum nm cs) := henv _ (henv1 _ hcs)
                 refine ⟨?_, ?_⟩
@@ -395,8 +397,8 @@ theorem member_step (henv : EnvOK env) (td : TypeDef) (hasTn : Bool) (s : Sel)
               | iface a b => simp [isComposite] at hcomp'
               | union a b => simp [isComposite] at hcomp'
               | input a => simp [isLeafKind] at hsub
-        obtain ⟨hmono, hinv', hval⟩ := hvalue
-        refine ⟨⟨alias.getD name, wrapSlices (shape ftype false).1 gen, false⟩, ?_, rfl, ?_, hmono, hinv', ?_, ?_⟩
+        obtain ⟨hmono, hinv', hnm, hval⟩ := hvalue
+        refine ⟨⟨alias.getD name, wrapSlices (shape ftype false).1 gen, false⟩, ?_, rfl, ?_, hmono, hinv', hnm, ?_, ?_⟩
         · exact Fields.set_of_fresh (fun x hx => by simpa [memberKey] using hfresh x hx)
         · intro c f'; simp [FragPair]
         · intro h; simp [isFieldSel] at h
@@ -420,7 +422,7 @@ theorem members_lemma (henv : EnvOK env) (td : TypeDef) (hasTn : Bool) :
       EnumInv st →
       ∃ es, fields' = fields ++ es ∧
         (∀ c f, Conds.has conds' c f ↔ Conds.has conds c f ∨ ∃ s ∈ rest, FragPair ft td s c f) ∧
-        (∀ d ∈ st.decls, d ∈ st'.decls) ∧ EnumInv st' ∧
+        (∀ d ∈ st.decls, d ∈ st'.decls) ∧ EnumInv st' ∧ (∀ tds, NamesHyp S tds → NameInv S tds st → NameInv S tds st') ∧
         ((∃ s ∈ rest, isFieldSel s = false) → td.isObject = false → hasTn = true) ∧
         ((∀ d ∈ st'.decls, d ∈ env) → Forall2 (MemberGood S env frag td) rest es ∧
           (FragNames ft (env.map Decl.name) → enumConstsOK S = true →
@@ -435,7 +437,7 @@ theorem members_lemma (henv : EnvOK env) (td : TypeDef) (hasTn : Bool) :
     injection hgen with h1 h2
     injection h2 with h2 h3
     subst h1 h2 h3
-    refine ⟨[], by simp, ?_, fun d hd => hd, hinv, ?_,
+    refine ⟨[], by simp, ?_, fun d hd => hd, hinv, fun _ _ h => h, ?_,
       fun _ => ⟨.nil, fun _ _ => ⟨fun e he => (nomatch he), fun h => h⟩⟩⟩
     · intro c f; simp
     · rintro ⟨s, hs, _⟩; cases hs
@@ -449,7 +451,7 @@ theorem members_lemma (henv : EnvOK env) (td : TypeDef) (hasTn : Bool) :
       simp only [hstep] at hgen
       simp only [membersOK, Bool.and_eq_true] at hmok
       simp only [List.map_cons, List.nodup_cons] at hnd
-      obtain ⟨e, hf1, hek, hc1, hmono1, hinv1, htn1, hgood1⟩ :=
+      obtain ⟨e, hf1, hek, hc1, hmono1, hinv1, hnm1, htn1, hgood1⟩ :=
         member_step henv td hasTn s fields conds st f1 c1 st1 (hIH s List.mem_cons_self) hstep hmok.1
           (fun x hx => hfresh x hx s List.mem_cons_self) hinv
       have hfresh1 : ∀ x ∈ f1, ∀ s' ∈ rest, x.key ≠ memberKey td s' := by
@@ -462,10 +464,11 @@ theorem members_lemma (henv : EnvOK env) (td : TypeDef) (hasTn : Bool) :
           rw [hek]
           intro heq
           exact hnd.1 (List.mem_map.mpr ⟨s', hs', heq.symm⟩)
-      obtain ⟨es, hfs, hconds, hmono, hinv', htn, hall⟩ :=
+      obtain ⟨es, hfs, hconds, hmono, hinv', hnm, htn, hall⟩ :=
         ih f1 c1 st1 fields' conds' st' (fun s' hs' => hIH s' (List.mem_cons_of_mem _ hs')) hgen hmok.2
           hfresh1 hnd.2 hinv1
-      refine ⟨e :: es, by rw [hfs, hf1]; simp, ?_, fun d hd => hmono d (hmono1 d hd), hinv', ?_, ?_⟩
+      refine ⟨e :: es, by rw [hfs, hf1]; simp, ?_, fun d hd => hmono d (hmono1 d hd), hinv',
+        fun tds hN h => hnm tds hN (hnm1 tds hN h), ?_, ?_⟩
       · intro c f
         rw [hconds, hc1]
         constructor
@@ -522,7 +525,7 @@ theorem level_statement (hS : schemaOK S = true) (henv : EnvOK env) (hfrag : Fra
           simp [List.map_map, Function.comp_def]
         rw [h2] at this
         exact nodup_of_nodup_map fieldName this
-      obtain ⟨es, hfs, hconds, hmono, hinv', htn, hall⟩ :=
+      obtain ⟨es, hfs, hconds, hmono, hinv', hnm, htn, hall⟩ :=
         members_lemma henv td (typenameFieldOf subs).isSome subs [] [] st fields conds st1
           (fun s hs => ih (subsOf s) (by have := sizeOf_subsOf_lt hs; omega)) hwalk hmok
           (fun x hx => by cases hx) hndk hinv
@@ -542,7 +545,7 @@ theorem level_statement (hS : schemaOK S = true) (henv : EnvOK env) (hfrag : Fra
         injection hgen with hgen
         injection hgen with h1 h2
         subst h1 h2
-        refine ⟨hmono, hinv', ?_⟩
+        refine ⟨hmono, hinv', hnm, ?_⟩
         intro henv'
         obtain ⟨hall1, hall2⟩ := hall henv'
         refine ⟨⟨_, rfl, level_good hS hfrag hlk' hall1 hconds' hok (fun ho hex => htn hex ho) (Or.inl ⟨hempty, rfl⟩)⟩, ?_⟩
@@ -556,7 +559,8 @@ theorem level_statement (hS : schemaOK S = true) (henv : EnvOK env) (hfrag : Fra
         injection hgen with hgen
         injection hgen with h1 h2
         subst h1 h2
-        refine ⟨fun d hd => by simp [hmono d hd], ?_, ?_⟩
+        refine ⟨fun d hd => by simp [hmono d hd], ?_,
+          fun tds hN h => nameInv_add_sel hN (hnm tds hN h) (Schema.lookup_mem hlk) hcomp _ _, ?_⟩
         · intro m hm
           obtain ⟨cs, hcs⟩ := hinv' m hm
           exact ⟨cs, by simp [hcs]⟩
